@@ -115,6 +115,13 @@ fn snapshot(b: &MessageBuilder, universe: &[u16]) -> Snapshot {
 }
 
 pub fn check_ops(ctx: &mut Ctx, ops: &[Op], creds: &RefCreds) {
+    check_ops_from(ctx, 0, ops, creds)
+}
+
+/// `start` selects how the builder comes into being: 0 = `Message::builder`, 1 = `builder_success`,
+/// 2 = `builder_error`, 3 = `bad_request`, 4 = `unknown_attributes` (the canned responses arrive with
+/// attributes already in them; the rules and the queries apply to those just the same).
+pub fn check_ops_from(ctx: &mut Ctx, start: u8, ops: &[Op], creds: &RefCreds) {
     ctx.eval();
     let tpool = typed_pool();
     let rpool = raw_pool();
@@ -124,13 +131,51 @@ pub fn check_ops(ctx: &mut Ctx, ops: &[Op], creds: &RefCreds) {
     universe.extend(rpool.iter().map(|x| x.0));
     universe.extend_from_slice(&[MI, MI256, FP, 0x0001]);
     let icreds = imp::to_impl_creds(creds);
-    let w = || wit(ops, creds);
+    let w = || {
+        let mut v = wit(ops, creds);
+        v["start"] = json!(start);
+        v
+    };
+    // the request the canned responses answer
+    let req_bytes = crate::refimpl::parse::encode(0, 1, &tid, &[crate::refimpl::parse::Tlv::new(0x7f01, vec![1]), crate::refimpl::parse::Tlv::new(0x7f02, vec![])]);
+    let req = match Message::from_bytes(&req_bytes) {
+        Ok(m) => m,
+        Err(_) => return,
+    };
+    universe.extend_from_slice(&[0x0009, 0x000a, 0x8022]);
+    universe.sort();
+    universe.dedup();
 
     let res = guard(|| {
         let mut problems: Vec<(String, String, String, String)> = vec![]; // (assertion, feature, expected, observed)
         let p = Program { class: 0, method: 1, tid, attrs: vec![], seals: vec![], creds: creds.clone() };
-        let mut b: MessageBuilder = new_builder(&p);
+        let mut b: MessageBuilder = match start {
+            0 => new_builder(&p),
+            1 => Message::builder_success(&req),
+            2 => Message::builder_error(&req),
+            3 => Message::bad_request(&req),
+            _ => Message::unknown_attributes(&req, &[AttributeType::new(0x7f01), AttributeType::new(0x7f02)]),
+        };
         let mut model = Model::default();
+        if start != 0 {
+            // what the canned response already carries, as its own serialisation shows it
+            let init = b.build();
+            let rp0 = ref_parse(&init);
+            model.types = rp0.attrs.iter().map(|a| a.ty).collect();
+            model.values = rp0.attrs.iter().filter(|a| a.ty != MI && a.ty != MI256 && a.ty != FP).map(|a| a.value(&init).to_vec()).collect();
+            // its queries agree with that serialisation before anything is added
+            for t in universe.iter() {
+                if b.has_attribute(AttributeType::new(*t)) != model.has(*t) {
+                    problems.push((
+                        "serialisation-agrees-with-queries".into(),
+                        format!("canned-response,start={start}"),
+                        format!("has_attribute({t:#06x}) = {}", model.has(*t)),
+                        format!("{}", !model.has(*t)),
+                    ));
+                    break;
+                }
+            }
+        }
         let mut last_ord: Option<(bool, usize)> = None; // (typed?, pool index)
         let mut refused = 0u32;
         for (step, op) in ops.iter().enumerate() {
@@ -388,6 +433,28 @@ pub fn run(ctx: &mut Ctx) {
         }
     }
     ctx.count_n("enumeration-depth", if ctx.shard == 0 { depth as u64 } else { 0 });
+    // ---- the same, starting from each kind of canned response (depth 4) ----
+    for start in 1..=4u8 {
+        for len in 0..=4usize {
+            let total = (alpha.len() as u64).pow(len as u32);
+            for code in 0..total {
+                idx += 1;
+                if !ctx.mine(idx) {
+                    continue;
+                }
+                let mut c = code;
+                let ops: Vec<Op> = (0..len)
+                    .map(|_| {
+                        let o = alpha[(c % alpha.len() as u64) as usize];
+                        c /= alpha.len() as u64;
+                        o
+                    })
+                    .collect();
+                check_ops_from(ctx, start, &ops, &creds);
+                ctx.count("canned-response-sequences");
+            }
+        }
+    }
     // ---- random longer sequences (SmallVec spill beyond 16 types) ----
     let n = ctx.n(60_000, 600_000);
     let mut rng = ctx.rng("random-ops", 0);
@@ -423,6 +490,7 @@ pub fn run(ctx: &mut Ctx) {
         }
     }
     ctx.require("refused-operations", 10_000);
+    ctx.require("canned-response-sequences", 10_000);
     ctx.require("final-state-parsed", 10_000);
     ctx.require("final-state-validated", 5_000);
     ctx.require("random-sequences", 1_000);
@@ -431,6 +499,6 @@ pub fn run(ctx: &mut Ctx) {
 pub fn replay(ctx: &mut Ctx, w: &Value) -> Result<(), String> {
     let ops: Vec<Op> = w.get("ops").and_then(|o| o.as_array()).ok_or("ops")?.iter().map(|o| Op::from_name(o.as_str().unwrap_or(""))).collect::<Option<Vec<_>>>().ok_or("bad op")?;
     let creds = RefCreds::from_json(w.get("creds").ok_or("creds")?).ok_or("bad creds")?;
-    check_ops(ctx, &ops, &creds);
+    check_ops_from(ctx, w.get("start").and_then(|s| s.as_u64()).unwrap_or(0) as u8, &ops, &creds);
     Ok(())
 }
